@@ -256,7 +256,7 @@ def main(argv=None):
                   "negative statements hold in the generic-group sense (T9); attribute values congruent to 0 modulo r count as unset"]
     chk.trusted = ["group layer specification (C01, C05-C08)", "z3"]
     # lower layers whose specifications this check relies on: their obligations are part of this check's claim (framework.Check.include)
-    for dep in ['C06', 'C02', 'C03', 'C04', 'C05', 'C07', 'C01', 'C08', 'C10', 'C19']:
+    for dep in ['C06', 'C02', 'C03', 'C04', 'C05', 'C07', 'C01', 'C08', 'C10', 'C19', 'C20']:
         chk.include(dep)
     # the property quantifies over the keys reachable by delegation; the obligations above start from an arbitrary well-formed key, so the
     # step 'every key-producing operation returns a well-formed key (all components, bsig included, under one exponent)' is part of the claim
